@@ -81,6 +81,7 @@ func (b *decimal) set(s []byte) (ok bool) {
 	// digits
 	sawdot := false
 	sawdigits := false
+	dropped := 0 // integer digits that did not fit in b.d
 	for ; i < len(s); i++ {
 		switch {
 		case s[i] == '_':
@@ -91,7 +92,7 @@ func (b *decimal) set(s []byte) (ok bool) {
 				return
 			}
 			sawdot = true
-			b.dp = b.nd
+			b.dp = b.nd + dropped
 			continue
 
 		case '0' <= s[i] && s[i] <= '9':
@@ -103,8 +104,15 @@ func (b *decimal) set(s []byte) (ok bool) {
 			if b.nd < len(b.d) {
 				b.d[b.nd] = s[i]
 				b.nd++
-			} else if s[i] != '0' {
-				b.trunc = true
+			} else {
+				// The digit is not kept, but left of the decimal
+				// point it still counts for the magnitude.
+				if !sawdot {
+					dropped++
+				}
+				if s[i] != '0' {
+					b.trunc = true
+				}
 			}
 			continue
 		}
@@ -114,7 +122,7 @@ func (b *decimal) set(s []byte) (ok bool) {
 		return
 	}
 	if !sawdot {
-		b.dp = b.nd
+		b.dp = b.nd + dropped
 	}
 
 	// optional exponent moves decimal point.
